@@ -267,6 +267,14 @@ func Scenarios(tier string) []*Scenario {
 	tS1 := threadSpec{u: s1, tree: 0, steps: []step{{kind: "insert", k: f(s1, 0), n: 5}, {kind: "delete", k: f(s1, 1)}, {kind: "delete", k: f(s1, 0)}}}
 	tS2 := threadSpec{u: s2, tree: 1, steps: []step{{kind: "insert", k: f(s2, 2), n: 6}, {kind: "delete", k: f(s2, 0)}, {kind: "delete", k: f(s2, 1)}}}
 	out = append(out, build("private-2/n4-split-merge", "two goroutines, private trees: path split / merge and node4->node16->node4", 2, []threadSpec{tS1, tS2}))
+	// one goroutine releases a 256-way node (256 -> 48 shrink) while the other acquires one (48 -> 256 grow)
+	{
+		d3 := hist.ProductTreeU8("S-N256@38q", hist.FanSpec{Hold: 38, Extra: 11, Present: 2, Absent: 2})
+		g3 := hist.ProductTreeU16("S-N48@48q", hist.FanSpec{Hold: 48, Present: 1, Absent: 2})
+		tD3 := threadSpec{u: d3, tree: 0, steps: []step{{kind: "delete", k: f(d3, 0)}, {kind: "search", k: f(d3, 1)}}}
+		tU3 := threadSpec{u: g3, tree: 1, steps: []step{{kind: "insert", k: f(g3, 1), n: 4}, {kind: "search", k: f(g3, 0)}}}
+		out = append(out, build("private-2/n256down-n48up", "two goroutines, private trees: one shrinks a 256-way node (released to the pool), the other grows a 48-way node into a 256-way one", 2, []threadSpec{tD3, tU3}))
+	}
 	if th {
 		a3 := hist.ProductTreeU8("S-N256@38", hist.FanSpec{Hold: 38, Extra: 11, Present: 2, Absent: 2})
 		tA3 := threadSpec{u: a3, tree: 2, steps: []step{{kind: "delete", k: f(a3, 0)}, {kind: "insert", k: f(a3, 2), n: 4}}}
